@@ -49,7 +49,21 @@ def run(ctx):
     for isa_ in ("x86", "aarch64"):
         base = list(corpus.archs_of(isa_, ctx.tier == "quick"))
         others = [a for a in corpus.archs_of(isa_, False) if a not in base]
-        role_archs[isa_] = base + ctx.rng.sample(others, min(2, len(others)))
+        extra = ctx.rng.sample(others, min(2, len(others)))
+        if isa_ == "aarch64" and others:
+            # ... one of them where the two latencies a write-back edge can be confused between differ most
+            def gap(a):
+                try:
+                    if a not in mms:
+                        mms[a] = MachineModel(arch=a)
+                    im0 = dgcheck.Impl("aarch64", a, ["add x1, x2, #8"], False, mms[a])
+                    return abs(float(mms[a].get("p_index_latency") or 0) - float(im0.kernel[0].latency or 0))
+                except Exception:  # noqa
+                    return -1.0
+            best = max(others, key=gap)
+            if best not in extra:
+                extra[0] = best
+        role_archs[isa_] = base + extra
     for t in range(nr):
         isa = "x86" if t % 2 == 0 else "aarch64"
         arch = ctx.rng.choice(role_archs[isa])
